@@ -119,3 +119,16 @@ def runForest (j : Json) : R (Json × Json) := do
   pure (Json.arr ms, Json.arr ss)
 
 end Anytree.Drv
+
+namespace Anytree.Drv
+open Lean Anytree
+
+/-- family `lockstep`: the same history (tree-node arguments only) on both flavours -/
+def runLockstep (j : Json) : R (Json × Json) := do
+  let jn := j.setObjVal! "fl" "nm"
+  let jl := j.setObjVal! "fl" "light"
+  let (mn, sn) ← runForest jn
+  let (ml, sl) ← runForest jl
+  pure (Json.mkObj [("nm", mn), ("light", ml)], Json.mkObj [("nm", sn), ("light", sl)])
+
+end Anytree.Drv
